@@ -111,7 +111,7 @@ def trusted_base(pid):
     return ['z3 4.x/5.1 (Python API) and /usr/bin/cvc5 1.0.3 as SMT back ends',
             'pyvc VC generator (this repository: /verif/pyvc), cross-checked against CPython and by mutation self-test',
             'CPython ast module for reading the function bodies from the working tree'] + \
-           ['trusted contract: ' + k for k in trusted_contracts(pid)][:60]
+           ['trusted contract: ' + k for k in trusted_contracts(pid)][:200]
 
 
 def expected_count(pid):
